@@ -523,10 +523,12 @@ check(
           "server packet was still to come."),
     quick=[unit("client", "^TestC10(Cancellation|HandshakeCancellation)", checks=10000, timeout=900),
            unit("client", "^TestC10StreamingCancel", checks=1500, timeout=900),
-           unit("pool", "^TestC10TLSDialCancellation", checks=1, timeout=900)],
+           unit("pool", "^TestC10TLSDialCancellation", checks=1, timeout=900),
+           unit("client", "^TestC10(SilentInsidePacket|PeerStopsReading)", checks=1500, timeout=900)],
     thorough=[unit("client", "^TestC10(Cancellation|HandshakeCancellation)", checks=80000, timeout=8000, shards=12),
               unit("client", "^TestC10StreamingCancel", checks=8000, timeout=8000, shards=4),
-              unit("pool", "^TestC10TLSDialCancellation", checks=1, timeout=900)],
+              unit("pool", "^TestC10TLSDialCancellation", checks=1, timeout=900),
+              unit("client", "^TestC10(SilentInsidePacket|PeerStopsReading)", checks=20000, timeout=8000, shards=4)],
     manifest=dict(
         text="Oracle per run: Do returns within readTimeout + 2s of the cancellation instant on the virtual clock; the error "
              "matches ctx.Err(); the client is closed and Close was called on the connection; the Cancel packet is judged per "
